@@ -301,7 +301,7 @@ func runC06Placeholders(p *Prog, r *Report) {
 			return true
 		})
 	}
-	r.ExpectMin("C06.completion-data-literals", nLits, 20)
+	r.ExpectMin("C06.completion-data-literals", nLits, 14)
 	r.ExpectMin("C06.nested-data-calls", nCalls, 8)
 	r.Clauses = append(r.Clauses, "C06(d) every CompletionData literal whose snippet embeds nested completion data returns that data's NextPlaceholder; every leaf snippet returns counter + (number of numbered tab stops it uses); nested data is requested with the threaded counter, advanced inside loops")
 }
